@@ -52,6 +52,27 @@ elif name=='M11_move_ctor_keeps_raw':
 			row.mFreeRaws = nullptr;''','''			row.mFreeRaws = nullptr;''')
 elif name=='M12_row_gets_private_head':
     sub(tab,'return RowProxy(&GetColumnList(), raw, &mCrew.GetFreeRaws());','static FreeRaws other(nullptr);\n\t\treturn RowProxy(&GetColumnList(), raw, &other);')
+elif name=='C1_createraw_catch_leaks':
+    sub(tab,'''		catch (...)
+		{
+			mRawMemPool.Deallocate(raw);
+			throw;
+		}
+		return raw;''','''		catch (...)
+		{
+			throw;
+		}
+		return raw;''')
+elif name=='C2_newrow_catch_keeps_buffer':
+    sub(tab,'''		catch (...)
+		{
+			pvDestroyRaw(raw);
+			throw;
+		}''','''		catch (...)
+		{
+			GetColumnList().DestroyRaw(&GetMemManager(), raw);
+			throw;
+		}''')
 elif name=='G1_link_points_to_itself':
     sub(row,'MemCopyer::ToBuffer(headRaw, raw);','MemCopyer::ToBuffer(raw, raw);')
 elif name=='G2_drain_frees_only_first':
